@@ -426,8 +426,13 @@ class PythonTypesBackend(CodeBackend):
         # As an edge case, we union omitted callers with None in the case when the object has no
         # public fields, as we still need to generate public attributes (`_field_names_` etc)
         child_omitted_callers = data_type.get_all_omitted_callers() | {None}
-        parent_omitted_callers = data_type.parent_type.get_all_omitted_callers() if \
-            data_type.parent_type else set()
+        # Every ancestor counts: a parent without omitted fields of its own still
+        # carries the per-caller tables it inherited.
+        parent_omitted_callers = set()
+        ancestor = data_type.parent_type
+        while ancestor:
+            parent_omitted_callers |= ancestor.get_all_omitted_callers()
+            ancestor = ancestor.parent_type
 
         for omitted_caller in sorted(child_omitted_callers | parent_omitted_callers, key=str):
             is_public = omitted_caller is None
